@@ -502,3 +502,47 @@ def rule_rvv_geninput(ctx, R):
                         found='the piece at %s leaves %s' % (P.name_at(bad[0]), ('the entry value of %s' % v[1]) if v[0] == 'init' else ('a value computed at %s' % P.name_at(v[1])) if v[0] == 'other' and isinstance(v[1], int) else str(v)))
         else:
             R.ok('%s (read by generated %s code)' % (r, exposed[r]), '%s:%s' % (cfg['src'], cfg['loop']))
+
+
+# ---------------------------------------------------------------------------------------------------------------------------
+# [A64-RT-CALLDEST]  calls from the copied template into the part the generator rewrites land on its first byte
+def rule_a64_calldest(ctx, R):
+    from astq import walk, show
+    R.rule('A64-RT-CALLDEST', 'the A64 generator copies the template up to randomx_init_dataset_aarch64_end and writes the dataset-item routine anew directly behind it (generateSuperscalarHash starts at CodeSize = that label - '
+           'randomx_program_aarch64); the pc-relative calls in the copied part that leave it must therefore target exactly that address - an alignment gap or a moved label makes them skip or repeat instructions of the routine', min_instances=2)
+    P = rtasm.Prog(ctx.obj('a64'), 'a64')
+    R.saw(unit='src/jit_compiler_a64_static.S', config='K2')
+    F, hs = jit.handlers(ctx, 'a64')
+    g = F.func('randomx::JitCompilerA64::generateSuperscalarHash')
+    R.saw(fn=g['q'])
+    start_decl = None
+    for x in walk(g['body']):
+        if x['k'] == 'Decl':
+            for d in x['d']:
+                if d.get('name') == 'codePos' and d.get('init') is not None:
+                    start_decl = show(d['init'])
+            if start_decl:
+                break
+    cs = None
+    for q in ('randomx::CodeSize', 'CodeSize'):
+        if F.has_glob(q):
+            cs = F.glob(q)
+    if cs is None or start_decl is None:
+        raise AnalysisBroken('A64-RT-CALLDEST: CodeSize / the start position of generateSuperscalarHash not found')
+    cs_txt = show(cs['init']) if cs.get('init') is not None else ''
+    m = re.findall(r'randomx_\w+', cs_txt)
+    if 'CodeSize' not in start_decl or len(m) != 2 or '-' not in cs_txt:
+        raise AnalysisBroken('A64-RT-CALLDEST: generateSuperscalarHash does not start at CodeSize = label - label (%s; %s)' % (start_decl, cs_txt[:80]))
+    end_sym, beg_sym = m[0], m[1]
+    lo, hi = P.sym(beg_sym), P.sym(end_sym)
+    n = 0
+    for a in P.order:
+        if not (lo <= a < hi):
+            continue
+        i = P.ins[a]
+        if i.kind == 'call' and i.target is not None and not (lo <= i.target < hi):
+            n += 1
+            R.check(i.target == hi, 'bl at %s' % P.name_at(a), 'src/jit_compiler_a64_static.S:%s' % P.name_at(a), expected='%s (= code + CodeSize, the first byte the generator writes)' % end_sym,
+                    found='%s, %d bytes behind it' % (P.name_at(i.target), i.target - hi))
+    if n < 2:
+        raise AnalysisBroken('A64-RT-CALLDEST: only %d calls out of the copied part' % n)
